@@ -47,6 +47,7 @@ type Op struct {
 	F    []int    `json:"f,omitempty"`  // flag ops (index of the FlagsOp constant) of set/del/uflags
 	E    uint64   `json:"e,omitempty"`  // limits: entry size limit (0 = unlimited)
 	B    uint64   `json:"b,omitempty"`  // limits: buffer size limit (0 = unlimited)
+	Unmark bool   `json:"unmark,omitempty"` // uflags: through KVUnionStore.UnmarkPresumeKeyNotExists
 	Stale bool    `json:"stale,omitempty"` // set/del: open a buffer iterator before the write and probe it afterwards
 	H    int      `json:"h,omitempty"`  // release/cleanup/inspect: -1 = the live top handle, else literal handle
 	ID   int      `json:"id,omitempty"` // cp / revert: checkpoint label
@@ -321,20 +322,19 @@ func (t *txnTarget) Close()                                                 { _ 
 // ---------------------------------------------------------------- discipline tracker (value-log positions)
 // Decides which checkpoints may still be reverted to (a checkpoint is a position of the value log and
 // dies when the log is truncated below it; reverting below the top staging position is API misuse) and
-// predicts the in-place overwrites that are invisible to live checkpoints (known finding F03).
+// predicts which writes overwrite in place (entry above the top staging position and above lastCheckpoint).
 type shEntry struct {
 	k string
 	v []byte
 }
 type cpInfo struct {
-	pos      int
-	poisoned bool
+	pos int
 }
 type tracker struct {
 	log      []shEntry
 	stagePos []int
 	cps      map[int]*cpInfo
-	f03Fired bool
+	lastCp   int // latest position handed out by Checkpoint / reverted to (lowered by a cleanup below it)
 }
 
 func newTracker() *tracker { return &tracker{cps: map[int]*cpInfo{}} }
@@ -354,31 +354,13 @@ func (t *tracker) inplaceIdx(k string, v []byte) int {
 	if len(t.stagePos) > 0 && i < t.stagePos[len(t.stagePos)-1] {
 		return -1
 	}
+	if i < t.lastCp {
+		return -1
+	}
 	return i
-}
-
-// wouldPoison: this write is an in-place overwrite visible from a live checkpoint
-func (t *tracker) wouldPoison(k string, v []byte) bool {
-	i := t.inplaceIdx(k, v)
-	if i < 0 || bytes.Equal(t.log[i].v, v) {
-		return false
-	}
-	for _, c := range t.cps {
-		if c.pos > i {
-			return true
-		}
-	}
-	return false
 }
 func (t *tracker) write(k string, v []byte) {
 	if i := t.inplaceIdx(k, v); i >= 0 {
-		if !bytes.Equal(t.log[i].v, v) {
-			for _, c := range t.cps {
-				if c.pos > i {
-					c.poisoned = true
-				}
-			}
-		}
 		t.log[i].v = append([]byte{}, v...)
 		return
 	}
@@ -394,11 +376,18 @@ func (t *tracker) truncate(p int) {
 		}
 	}
 }
-func (t *tracker) staging()      { t.stagePos = append(t.stagePos, len(t.log)) }
-func (t *tracker) depth() int    { return len(t.stagePos) }
-func (t *tracker) release()      { t.stagePos = t.stagePos[:len(t.stagePos)-1] }
-func (t *tracker) cleanup()      { p := t.stagePos[len(t.stagePos)-1]; t.truncate(p); t.release() }
-func (t *tracker) checkpoint(id int) { t.cps[id] = &cpInfo{pos: len(t.log)} }
+func (t *tracker) staging()   { t.stagePos = append(t.stagePos, len(t.log)) }
+func (t *tracker) depth() int { return len(t.stagePos) }
+func (t *tracker) release()   { t.stagePos = t.stagePos[:len(t.stagePos)-1] }
+func (t *tracker) cleanup() {
+	p := t.stagePos[len(t.stagePos)-1]
+	t.truncate(p)
+	if p < t.lastCp {
+		t.lastCp = p
+	}
+	t.release()
+}
+func (t *tracker) checkpoint(id int) { t.cps[id] = &cpInfo{pos: len(t.log)}; t.lastCp = len(t.log) }
 func (t *tracker) canRevert(id int) bool {
 	c, ok := t.cps[id]
 	if !ok || c.pos > len(t.log) {
@@ -411,10 +400,8 @@ func (t *tracker) canRevert(id int) bool {
 }
 func (t *tracker) revert(id int) {
 	c := t.cps[id]
-	if c.poisoned {
-		t.f03Fired = true
-	}
 	t.truncate(c.pos)
+	t.lastCp = c.pos
 }
 
 // ---------------------------------------------------------------- reference (specification) view
@@ -455,6 +442,76 @@ func fopsString(f []int) string {
 }
 
 const persistentFlags = kv.KeyFlags(2 | 8 | 2048 | 8192)
+
+// refApply: the specification of the flag operations (by index of the FlagsOp constant), written out
+// independently of kv.ApplyFlagsOps
+func refApply(f kv.KeyFlags, ops []int) kv.KeyFlags {
+	const (
+		presumeKNE = 1 << iota
+		keyLocked
+		needLocked
+		keyLockedValExist
+		needCheckExists
+		prewriteOnly
+		ignoredIn2PC
+		readable
+		newlyInserted
+		assertExist
+		assertNotExist
+		needConstraintCheck
+		previousPresumeKNE
+		keyLockedInShareMode
+	)
+	for _, op := range ops {
+		switch op {
+		case 0:
+			f |= presumeKNE | needCheckExists
+		case 1:
+			f &^= presumeKNE | needCheckExists
+		case 2:
+			f |= keyLocked
+		case 3:
+			f &^= keyLocked
+		case 4:
+			f |= needLocked
+		case 5:
+			f &^= needLocked
+		case 6:
+			f = (f | keyLockedValExist) &^ needConstraintCheck
+		case 7:
+			f &^= keyLockedValExist | needConstraintCheck
+		case 8:
+			f &^= needCheckExists
+		case 9:
+			f |= prewriteOnly
+		case 10:
+			f |= ignoredIn2PC
+		case 11:
+			f |= readable
+		case 12:
+			f |= newlyInserted
+		case 13:
+			f = (f &^ assertNotExist) | assertExist
+		case 14:
+			f = (f &^ assertExist) | assertNotExist
+		case 15:
+			f |= assertExist | assertNotExist
+		case 16:
+			f &^= assertExist | assertNotExist
+		case 17:
+			f |= needConstraintCheck
+		case 18:
+			f &^= needConstraintCheck
+		case 19:
+			f |= previousPresumeKNE
+		case 20:
+			f |= keyLockedInShareMode
+		case 21:
+			f &^= keyLockedInShareMode
+		}
+	}
+	return f
+}
 
 // undo: keys that lose their first value keep only the persistent flags (and vanish without any)
 func (r *refState) undoTo(restored map[string][]byte) {
@@ -593,7 +650,7 @@ func fullObs(t target) string {
 }
 
 // execProgram runs p on a fresh target. emit (may be nil) receives the transcript lines.
-// Returns the first oracle failure (nil if none) and whether the F03 pattern fired.
+// Returns the first oracle failure (nil if none); the second result is unused (kept for the FAIL line format).
 func execProgram(id int, p *Program, emit func(string)) (*failure, bool) {
 	var snap []KV
 	for _, e := range p.Snap {
@@ -680,7 +737,7 @@ func execProgram(id int, p *Program, emit func(string)) (*failure, bool) {
 			}
 			if applied {
 				ref.buf[string(k)] = v
-				ref.flags[string(k)] = kv.ApplyFlagsOps(ref.flags[string(k)], append([]kv.FlagsOp{kv.DelNeedConstraintCheckInPrewrite}, fops...)...)
+				ref.flags[string(k)] = refApply(ref.flags[string(k)], append([]int{18}, o.F...))
 				tr.write(string(k), v)
 				if uint64(ref.size()) > ref.blim {
 					want = "txntoolarge"
@@ -874,13 +931,25 @@ func execProgram(id int, p *Program, emit func(string)) (*failure, bool) {
 		case "uflags":
 			k := unhx(o.K)
 			fops := fopsOf(o.F)
-			pan := protect(func() { buf.UpdateFlags(k, fops...) })
+			ff := o.F
+			pan := protect(func() {
+				if us, isUS := t.(*usTarget); isUS && o.Unmark {
+					us.us.UnmarkPresumeKeyNotExists(k) // = UpdateFlags(k, DelPresumeKeyNotExists)
+				} else if o.Unmark {
+					buf.UpdateFlags(k, kv.DelPresumeKeyNotExists)
+				} else {
+					buf.UpdateFlags(k, fops...)
+				}
+			})
+			if o.Unmark {
+				ff = []int{1}
+			}
 			res := "ok"
 			if pan != "" {
 				res = "panic"
 			}
-			ref.flags[string(k)] = kv.ApplyFlagsOps(ref.flags[string(k)], fops...)
-			line(idx, "uflags", []string{hd(o.K), fopsString(o.F)}, res)
+			ref.flags[string(k)] = refApply(ref.flags[string(k)], ff)
+			line(idx, "uflags", []string{hd(o.K), fopsString(ff)}, res)
 			if !oracle("flags-update-accepted", pan == "") {
 				setFail("flags-update-accepted", idx, pan)
 			}
@@ -917,7 +986,7 @@ func execProgram(id int, p *Program, emit func(string)) (*failure, bool) {
 			}
 			if us, isUS := t.(*usTarget); isUS {
 				has := us.us.HasPresumeKeyNotExists(k)
-				if !oracle("has-presume-kne", has == (ok && wf.HasPresumeKeyNotExists())) {
+				if !oracle("has-presume-kne", has == (ok && wf&(1|4096) != 0)) {
 					setFail("has-presume-kne", idx, fmt.Sprint(has))
 				}
 			}
@@ -1221,7 +1290,7 @@ func execProgram(id int, p *Program, emit func(string)) (*failure, bool) {
 	if emit != nil {
 		emit(fmt.Sprintf("END\t%d", id))
 	}
-	return fail, tr.f03Fired
+	return fail, false
 }
 
 // ---------------------------------------------------------------- minimiser (in process)
@@ -1373,8 +1442,8 @@ func genBound(r *rand.Rand, pool [][]byte) []byte {
 	}
 }
 
-func genProgram(r *rand.Rand, targetKind string, nops int, nof03 bool, big bool) *Program {
-	p := &Program{Target: targetKind, NoF03: nof03}
+func genProgram(r *rand.Rand, targetKind string, nops int, big bool) *Program {
+	p := &Program{Target: targetKind}
 	txn := targetKind == "txn"
 	pool := keyPool(r, txn)
 	for _, k := range pool {
@@ -1400,7 +1469,14 @@ func genProgram(r *rand.Rand, targetKind string, nops int, nof03 bool, big bool)
 			n := 1 + r.Intn(2)
 			var f []int
 			for i := 0; i < n; i++ {
-				f = append(f, r.Intn(22))
+				switch r.Intn(6) {
+				case 0:
+					f = append(f, 0) // SetPresumeKeyNotExists
+				case 1:
+					f = append(f, 19) // SetPreviousPresumeKNE
+				default:
+					f = append(f, r.Intn(22))
+				}
 			}
 			return f
 		}
@@ -1410,7 +1486,11 @@ func genProgram(r *rand.Rand, targetKind string, nops int, nof03 bool, big bool)
 			if f == nil {
 				f = []int{r.Intn(22)}
 			}
-			p.Ops = append(p.Ops, Op{Op: "uflags", K: hx(pick()), F: f})
+			if r.Intn(5) == 0 {
+				p.Ops = append(p.Ops, Op{Op: "uflags", K: hx(pick()), Unmark: true})
+			} else {
+				p.Ops = append(p.Ops, Op{Op: "uflags", K: hx(pick()), F: f})
+			}
 		case x >= 106 && x < 110:
 			p.Ops = append(p.Ops, Op{Op: "gflags", K: hx(pick())})
 		case x >= 110 && x < 113:
@@ -1447,13 +1527,8 @@ func genProgram(r *rand.Rand, targetKind string, nops int, nof03 bool, big bool)
 			if r.Intn(40) == 0 {
 				v = nil
 			}
-			if len(v) > 0 && tr.wouldPoison(string(k), v) {
-				if nof03 {
-					v = append(v, 'z')
-					gstats["f03-avoided"]++
-				} else {
-					gstats["f03-armed"]++
-				}
+			if len(v) > 0 && tr.inplaceIdx(string(k), v) < 0 && tr.head(string(k)) >= 0 && len(tr.log[tr.head(string(k))].v) == len(v) {
+				gstats["same-length-overwrite-not-in-place(protected)"]++
 			}
 			if len(v) > 0 {
 				if tr.inplaceIdx(string(k), v) >= 0 {
@@ -1561,17 +1636,10 @@ func transcript(p *Program) string {
 }
 
 func report(out *bufio.Writer, id int, p *Program, f *failure, fired bool) {
-	// prefer an explanation that does not involve the known in-place overwrite pattern
-	no, yes := false, true
-	var min *Program
+	min := minimise(p, nil)
 	minFired := false
-	if min = minimise(p, &no); min == nil {
-		min = minimise(p, &yes)
-		minFired = true
-	}
 	if min == nil {
 		min = p
-		minFired = fired
 	}
 	mf, _ := fails(min, nil)
 	oname := f.oracle
@@ -1632,7 +1700,7 @@ func main() {
 		seed = 1
 	}
 	thorough := os.Getenv("VERIF_TIER") == "thorough"
-	nUS, nTxn, nops := 4000, 400, 40
+	nUS, nTxn, nops := 5000, 600, 40
 	if thorough {
 		nUS, nTxn, nops = 150000, 12000, 60
 	}
@@ -1645,31 +1713,30 @@ func main() {
 	}
 	r := rand.New(rand.NewSource(seed*7919 + 13))
 	id := 0
-	nfail, nfired, nplain := 0, 0, 0
+	nfail := 0
 	runOne := func(p *Program) {
 		id++
 		f, fired := execProgram(id, p, emit)
 		gstats["programs-"+p.Target]++
-		if fired {
-			gstats["f03-fired-programs"]++
-		}
+		_ = fired
 		if f != nil {
 			nfail++
-			// failures of programs without the F03 pattern are violations whatever their number: 40 are
-			// minimised and reported; programs in which F03 fired are all minimised and classified
-			if fired {
-				nfired++
-				if nfired <= 5000 {
-					report(out, id, p, f, fired)
-				} else {
-					gstats["failing-programs-not-classified"]++
-				}
-			} else {
-				nplain++
-				if nplain <= 40 {
-					report(out, id, p, f, fired)
-				}
+			if nfail <= 40 {
+				report(out, id, p, f, false)
 			}
+		}
+	}
+	// directed regression for F03 (fixed by 6b4091a): a same-length overwrite after a checkpoint must be undone
+	// by RevertToCheckpoint — plain, inside a staging level, after a release, with a second checkpoint
+	for _, kind := range []string{"art", "rbt", "txn"} {
+		for _, ops := range [][]Op{
+			{{Op: "set", K: "78", V: "6161"}, {Op: "cp", ID: 1}, {Op: "set", K: "78", V: "6262"}, {Op: "revert", ID: 1}, {Op: "get", K: "78"}},
+			{{Op: "staging"}, {Op: "set", K: "78", V: "6161"}, {Op: "cp", ID: 1}, {Op: "set", K: "78", V: "6262"}, {Op: "hist", K: "78"}, {Op: "revert", ID: 1}, {Op: "get", K: "78"}, {Op: "cleanup", H: -1}, {Op: "get", K: "78"}},
+			{{Op: "set", K: "78", V: "6161"}, {Op: "cp", ID: 1}, {Op: "staging"}, {Op: "set", K: "78", V: "6262"}, {Op: "release", H: -1}, {Op: "set", K: "78", V: "6363"}, {Op: "cp", ID: 2}, {Op: "set", K: "78", V: "6464"}, {Op: "revert", ID: 2}, {Op: "get", K: "78"}, {Op: "revert", ID: 1}, {Op: "get", K: "78"}, {Op: "iter"}},
+			{{Op: "set", K: "78", V: "6161"}, {Op: "cp", ID: 1}, {Op: "set", K: "78", V: "6262"}, {Op: "set", K: "78", V: "6363"}, {Op: "hist", K: "78"}, {Op: "revert", ID: 1}, {Op: "set", K: "78", V: "6464"}, {Op: "hist", K: "78"}, {Op: "revert", ID: 1}, {Op: "bget", Keys: []string{"78"}}},
+		} {
+			runOne(&Program{Target: kind, Snap: [][2]string{{"78", "7a"}}, Ops: ops})
+			gstats["directed-f03-regression"]++
 		}
 	}
 	for i := 0; i < nUS; i++ {
@@ -1681,10 +1748,10 @@ func main() {
 		if i%10 == 0 {
 			n = nops * 3
 		}
-		runOne(genProgram(r, kind, n, i%7 != 0, i%6 == 1))
+		runOne(genProgram(r, kind, n, i%6 == 1))
 	}
 	for i := 0; i < nTxn; i++ {
-		runOne(genProgram(r, "txn", nops*3/4, i%7 != 0, i%5 == 0))
+		runOne(genProgram(r, "txn", nops*3/4, i%5 == 0))
 	}
 	gstats["failing-programs"] = nfail
 	finish(out)
